@@ -81,10 +81,10 @@ class Check:
             world['faults'] = faults
             return {'family': 'deadreckon', 'world': world, 'gains': {'madgwick': 10 ** rnd.uniform(-2, 0), 'kP': 10 ** rnd.uniform(-1, 0.7),
                     'kI': 10 ** rnd.uniform(-2, 0), 'alpha': 10 ** rnd.uniform(-2, -0.3)}, 'b0': [rnd.gauss(0, 0.05) for _ in range(3)],
-                    'dt_call': rnd.random() < 0.5, 'dt_route': rnd.choice(['Dt', 'Dt', 'call'])}
+                    'dt_call': rnd.random() < 0.5, 'dt_route': rnd.choice(['Dt', 'Dt', 'call', 'mixed']), 'late_seed': rnd.randrange(1 << 30)}
         n = rnd.choice([10, 60, 200] + ([600] if big else []))
         world = W.gen_world(rnd, n, allow_kicks=False, noise=False, max_rate=10.0)
-        return {'family': 'recorder', 'world': world}
+        return {'family': 'recorder', 'world': world, 'order': rnd.choice(['H', 'H', 'S'])}
 
     # ------------------------------------------------------------------
     def run(self, scn):
@@ -226,22 +226,30 @@ class Check:
         for name, p in nodes:
             kind = C.KINDS[name]
             key = W.chan_key(*kind.refs(p, dip))
-            p = dict(p, dt_route=scn.get('dt_route', 'Dt'), dt_call=scn.get('dt_call', False))
+            mixed = scn.get('dt_route') == 'mixed'
+            p = dict(p, dt_route=('Dt' if mixed else scn.get('dt_route', 'Dt')), dt_call=(False if mixed else scn.get('dt_call', False)))
             inst = kind.make(p, dt, dip)        # route 'call': class-default period, dt is given on every call
+            late = random.Random(f"late/{scn.get('late_seed', 0)}/{name}")
             tq = hist.truth[0]
             q = qm.qconj(tq) if kind.conj else tq.copy()
             for k in range(1, hist.n):
                 gk, ak, mk = hist.gyr[k], hist.acc[key][k], hist.mag[key][k]
                 prev = q
+                # route 'mixed': the period comes from the instance, but now and then a late/early sample is announced
+                # with an explicit dt for that call only; the next call without dt must use the instance's period again
+                dt_used, dt_arg = dt, C.call_dt(p, dt)
+                if mixed and late.random() < 0.2:
+                    dt_used = dt * late.choice([0.5, 2.0, 3.0])
+                    dt_arg = dt_used
                 try:
-                    q = np.asarray(kind.step(inst, p, prev, gk, ak, mk if 'm' in kind.sensors else None, C.call_dt(p, dt)), dtype=float)
+                    q = np.asarray(kind.step(inst, p, prev, gk, ak, mk if 'm' in kind.sensors else None, dt_arg), dtype=float)
                 except Exception as e:      # noqa: BLE001
                     viol.append(self._v(name, f'crash:{type(e).__name__}', k, f'tick {k}: {type(e).__name__}: {e}'))
                     break
                 stats['steps'] += 1
                 if not np.any(ak) and np.any(gk):
                     hits += 1
-                    ref = qm.qconj(first_order(qm.qconj(prev), gk, dt)) if kind.conj else first_order(prev, gk, dt)
+                    ref = qm.qconj(first_order(qm.qconj(prev), gk, dt_used)) if kind.conj else first_order(prev, gk, dt_used)
                     d = float(np.abs(q - ref).max())
                     stats['max_dead_reckoning_defect'] = max(stats.get('max_dead_reckoning_defect', 0.0), d)
                     log.add('dr', name, k, q)
@@ -270,7 +278,11 @@ class Check:
         Q, Wb, _ = W.truth(world)
         n = len(Q)
         try:
-            w_est = np.asarray(ahrs.QuaternionArray(Q.copy()).angular_velocities(dt))
+            if scn.get('order') == 'S':
+                # the same sequence stored scalar-last: the recovered rates must not depend on the storage order
+                w_est = np.asarray(ahrs.QuaternionArray(np.roll(Q, -1, axis=1), order='S').angular_velocities(dt))
+            else:
+                w_est = np.asarray(ahrs.QuaternionArray(Q.copy()).angular_velocities(dt))
         except Exception as e:          # noqa: BLE001
             viol.append(self._v('recorder', f'crash:{type(e).__name__}', 0, f'{type(e).__name__}: {e}'))
             return n * dt
